@@ -399,10 +399,12 @@ UNITS['U31k'] = dict(
     title='query_plan.rs try_bitpacking: width of a grouping-key field (nested fn bits, slice) and accounting of the packed key (slice): every value fits its field, fields do not overlap, the key stays within 63 bits or bit packing is abandoned (complete: every i64)',
     harnesses=[dict(name='proofs::field_width_holds_max', clause='0 <= bits(max) <= 63, max < 2^bits(max), minimal', fn='try_bitpacking::bits'),
                dict(name='proofs::field_width_of_negative_is_zero', clause='bits(max) == 0 for max < 0', fn='try_bitpacking::bits'),
+               dict(name='proofs::field_span_covers_range', clause='for every reported range [min, max] and nullability: the range is rejected, or adjusted_max >= max - min (+1 with NULL) resp. max; no overflow', fn='try_bitpacking[slices: range binding, span arithmetic]'),
+               dict(name='proofs::single_key_span_covers_range', clause='for every reported range: rejected, or every value plus offset lies in 0..=max_cardinality with 0 free for NULL; no overflow', fn='compile_grouping_key[slice: single column]'),
                dict(name='proofs::packed_key_accounting', clause='from any state with key < 2^width <= 2^63: either (key + (max << width), width + bits(max)) with width <= 63, or reset + None iff the key would exceed 63 bits; no arithmetic panic', fn='try_bitpacking[slice: field accounting]'),
                dict(name='proofs::vx_canary', expect_fail=True)],
-    assumptions=['Planner stand-in: reset() only counted'],
-    not_covered=['encoding_range (where min / max come from)', 'the choice of subtract_offset and the fuse / unfuse of NULLs around the packed field', 'BitPack / BitUnpack operators (shift and mask application)'])
+    assumptions=['Planner stand-in: reset() only counted; Plan stand-in: nullability and the range that encoding_range() reports (any min <= max)', 'A-fuse: fuse_int_nulls(offset) maps v to v + offset and NULL to 0; Add(-min) maps v to v - min (operators under U08k / not under contract)'],
+    not_covered=['encoding_range itself (interval arithmetic over plan nodes)', 'BitPack / BitUnpack operators (shift and mask application)'])
 
 UNITS['U32k'] = dict(
     kind='kani', crate='kani/U32', timeout_s=600, mem_gb=8, jobs=2,
